@@ -413,6 +413,45 @@ static void strlen_case(vrng *r, size_t len, int kind /* 0 string 1 bytes 2 name
     vg_free(dst, e.n); vb_free(&e); vg_free(src, len);
 }
 
+/* in-place re-encoding: the value's source lies inside the writer's own buffer and overlaps the destination
+ * (the writer copies with memmove); the bytes produced must be the value as it was when the call was made */
+static void overlap_case(vrng *r)
+{
+    size_t len = 1 + vrn(r, vrn(r, 4) ? 200 : 3000);
+    int kind = (int)vrn(r, 3);                               /* bytes / string / raw */
+    size_t pre = 1 + vrn(r, 6);                              /* tokens already written */
+    size_t hdr = kind == 2 ? 0 : (len <= 127 ? 2 : (len <= 32767 ? 3 : 5));
+    size_t pos = pre, dstpay = pos + hdr;
+    /* source start relative to the payload destination: 0 .. len-1 above it (overlapping), or further up (disjoint).
+     * A source BELOW the payload destination would overlap the length prefix the call itself has to write first; no
+     * copy order can preserve that, so it is not a meaningful request and is not generated. */
+    long delta = (long)vrn(r, (uint32_t)len);
+    if (vrn(r, 6) == 0) delta += (long)len + (long)vrn(r, 40);
+    long srcoff = (long)dstpay + delta;
+    size_t cap = (size_t)srcoff + len > dstpay + len ? (size_t)srcoff + len : dstpay + len;
+    cap += 1;
+    uint8_t *buf = vg_exact(cap);
+    for (size_t i = 0; i < cap; i++) buf[i] = (uint8_t)vr64(r);
+    uint8_t *snap = (uint8_t *)malloc(len);
+    binson_writer w; binson_writer_init(&w, buf, cap);
+    for (size_t i = 0; i < pre; i++) binson_write_boolean(&w, i & 1);
+    memcpy(snap, buf + srcoff, len);                         /* the value as handed over */
+    bool ret = kind == 0 ? binson_write_bytes(&w, buf + srcoff, len) : kind == 1 ? binson_write_string_with_len(&w, (const char *)(buf + srcoff), len) : binson_write_raw(&w, buf + srcoff, len);
+    vbuf e; memset(&e, 0, sizeof e);
+    if (kind == 2) vb_put(&e, snap, len); else ve_strlike(&e, kind == 0 ? 0x18 : 0x14, snap, len);
+    if (!ret || w.error_flags != BINSON_ERROR_NONE || binson_writer_get_counter(&w) != pos + e.n || memcmp(buf + pos, e.p, e.n) != 0) {
+        size_t at = 0; while (at < e.n && buf[pos + at] == e.p[at]) at++;
+        char what[300]; snprintf(what, sizeof what, "%s of %zu bytes whose source starts %ld bytes %s its destination inside the writer's own buffer: ret=%d error=%s, output differs from the value handed over at byte %zu",
+                                 kind == 0 ? "write_bytes" : kind == 1 ? "write_string_with_len" : "write_raw", len, delta < 0 ? -delta : delta, delta < 0 ? "below" : "above", ret, verr_name((int)w.error_flags), at);
+        vw_violation(delta < 0 ? "c05:overlap:source-below" : "c05:overlap:source-above", "%s", what);
+    }
+    vw_count("overlapping_source_writes", 1);
+    uint64_t key[3] = { len, (uint64_t)delta, (uint64_t)kind };
+    vw_nontrivial(vh_hash(key, sizeof key, 55));
+    if (vw_want_sample()) { char s[200]; snprintf(s, sizeof s, "%s of %zu bytes, source %ld bytes from its destination inside the writer's buffer: output equals the value handed over", kind == 0 ? "write_bytes" : kind == 1 ? "write_string_with_len" : "write_raw", len, delta); vw_sample(s); }
+    vb_free(&e); free(snap); vg_free(buf, cap);
+}
+
 /* well-formed sequences derived from trees */
 static const vbuf *EMIT_ENC;     /* the independent encoding of the tree being emitted (spans valid) */
 static void emit(binson_writer *w, const vnode *n, vrng *r, uint64_t *calls)
@@ -423,6 +462,11 @@ static void emit(binson_writer *w, const vnode *n, vrng *r, uint64_t *calls)
         binson_write_raw(w, EMIT_ENC->p + n->off, n->len);
         vw_count("raw_embedded_containers", 1);
         return;
+    }
+    if (vrn(r, 25) == 0) {
+        /* a query while the document is still open (answers false) must have no side effect on what follows */
+        (void)binson_writer_verify(w); (void)binson_writer_get_counter(w);
+        vw_count("queries_inside_sequences", 1);
     }
     switch (n->kind) {
     case K_BOOL: binson_write_boolean(w, n->b); break;
@@ -581,6 +625,7 @@ int main(int argc, char **argv)
             if (vw_want_sample()) { char s[100]; snprintf(s, sizeof s, "string/bytes/name of %zu random bytes -> canonical length prefix, verify ok, decoded back", len); vw_sample(s); }
         }
         else if (!strcmp(m, "c05t")) tree_case(&r);
+        else if (!strcmp(m, "c05o")) overlap_case(&r);
         else { fprintf(stderr, "HARNESS: unknown mode %s\n", m); return 2; }
     }
     return vw_finish();
